@@ -162,6 +162,9 @@ class Report:
         self.known = load_known_findings(prop)
         self.min_nontrivial = 2
         self.write_evidence = True     # False for --replay runs (one case is not the tier's evidence)
+        self.class_cases = {}          # workload class (stratum) -> cases judged
+        self.kf_class = {}             # (finding id, class) -> cases with >= 1 attributed instance
+        self._kf_seen = set()
 
     def count(self, key, n=1):
         self.counters[key] = self.counters.get(key, 0) + n
@@ -173,9 +176,18 @@ class Report:
         if sample is not None and len(self.samples) < 6:
             self.samples.append(sample)
 
+    def add_class_case(self, cls):
+        self.class_cases[cls] = self.class_cases.get(cls, 0) + 1
+
     def add_violation(self, kind: str, msg: str, spec=None, mech: str | None = None, detail=None):
         if mech and mech in self.known:
             self.known_seen[mech] = self.known_seen.get(mech, 0) + 1
+            cls = (spec or {}).get('stratum') if isinstance(spec, dict) else None
+            if cls:        # counted once per case: the number of peptides one case contributes is heavy-tailed
+                key = (mech, cls, json.dumps(spec, sort_keys=True, default=str))
+                if key not in self._kf_seen:
+                    self._kf_seen.add(key)
+                    self.kf_class[(mech, cls)] = self.kf_class.get((mech, cls), 0) + 1
             self.known_seen.setdefault('_ex_' + mech, {'msg': msg[:400], 'spec': spec})
             return
         self.violations.append({'kind': kind, 'msg': msg, 'spec': spec, 'mech': mech, 'detail': detail})
@@ -218,6 +230,21 @@ class Report:
                 self.violations.append({'kind': 'known-finding-drift', 'mech': fid, 'spec': None,
                                         'msg': f'{n} instances of known finding {fid} exceed the recorded '
                                                f'ceiling {ceil} for tier {self.tier}', 'detail': None})
+        # rate ceilings per workload class: a known finding must not explain (many) more instances per case than it does on the
+        # unchanged tree - a defect that hides behind a recorded mechanism shows up as a rate jump (coarse tripwire, DESIGN 5.3)
+        rates = {}
+        for (fid, cls), n in sorted(self.kf_class.items()):
+            cases = self.class_cases.get(cls, 0)
+            if cases:
+                rates[f'{fid}/{cls}'] = [n, cases, round(n / cases, 4)]
+            for rc in self.known.get(fid, {}).get('rate_ceilings', []):
+                if rc.get('property') not in (None, self.prop) or rc.get('class') != cls:
+                    continue
+                if cases >= rc.get('min_cases', 50) and n / cases > rc['max_per_case']:
+                    self.violations.append({'kind': 'known-finding-drift', 'mech': fid, 'spec': None, 'detail': None,
+                                            'msg': f'{n} cases with instances of known finding {fid} among {cases} cases of class {cls} '
+                                                   f'({n / cases:.3f} per case) exceed the recorded ceiling {rc["max_per_case"]} per case '
+                                                   f'(unchanged tree: {rc.get("measured", "?")})'})
         distinct = len(self.features)
         if not self.violations and distinct < self.min_nontrivial:
             self.inconclusive.append(f'only {distinct} distinct non-trivial cases (< {self.min_nontrivial})')
@@ -230,6 +257,7 @@ class Report:
             'reached': self.reached,
             'known_findings_seen': {k: v for k, v in self.known_seen.items() if not k.startswith('_ex_')},
             'inconclusive': self.inconclusive,
+            'known_finding_rates': rates,
         }
         if self.exhaustive is not None:
             cov['exhaustive'] = bool(self.exhaustive)
